@@ -155,14 +155,22 @@ def run_api(ctx):
         "failure-cache (RFC 9520) entries are not shifted: the drivers never produce SERVFAIL",
     ]
     # ---- the model alone ----------------------------------------------------
-    ctx.tlc("Lease", "MC_LeaseAnswer.tla", "MC_LeaseAnswer_quick.cfg", workers=6, timeout=600, heap="6g", tag="answer-quick")
-    ctx.tlc("Lease", "MC_LeaseAnswer.tla", "MC_LeaseAnswer_cut.cfg", workers=6, timeout=600, heap="6g", tag="answer-cut")
+    cov = ["-coverage", "1"] if thorough else []
+    runs = [ctx.tlc("Lease", "MC_LeaseAnswer.tla", "MC_LeaseAnswer_quick.cfg", workers=6, timeout=900, heap="6g",
+                    tag="answer-quick", args=cov),
+            ctx.tlc("Lease", "MC_LeaseAnswer.tla", "MC_LeaseAnswer_cut.cfg", workers=6, timeout=900, heap="6g",
+                    tag="answer-cut", args=cov)]
     if thorough:
-        r = ctx.tlc("Lease", "MC_LeaseAnswer.tla", "MC_LeaseAnswer_full.cfg", workers=8, timeout=1500, heap="12g",
-                    tag="answer-full", args=["-coverage", "1"])
-        dead = [a for a in r.zero_coverage() if a in ANSWER_ACTIONS]
-        if dead:
-            raise vf.MachineryError("vacuous model check: actions never taken: %s" % dead)
+        runs.append(ctx.tlc("Lease", "MC_LeaseAnswer.tla", "MC_LeaseAnswer_scoped.cfg", workers=2, timeout=600,
+                            heap="4g", tag="answer-scoped", args=cov))
+        # two client queries in flight; a three-hop alias chain (outer-loop chase retry)
+        ctx.tlc("Lease", "MC_LeaseAnswer.tla", "MC_LeaseAnswer_two.cfg", workers=8, timeout=2400, heap="12g", tag="answer-two")
+        ctx.tlc("Lease", "MC_LeaseAnswer.tla", "MC_LeaseAnswer_full.cfg", workers=8, timeout=2400, heap="12g", tag="answer-full")
+        never = set(ANSWER_ACTIONS)
+        for r in runs:
+            never &= set(r.zero_coverage())
+        if never:
+            raise vf.MachineryError("vacuous model check: actions never taken in any configuration: %s" % sorted(never))
     # ---- shifter self-test ----------------------------------------------------
     res = ctx.go_driver("./c04", "TestShifterSelfTest", {}, name="c04_selftest", timeout=900)
     if res.get("skipped"):
